@@ -336,7 +336,39 @@ func (c *collector) accumulator(fn *ssa.Function, v ssa.Value, al *ssa.Alloc, fv
 				}
 			}
 		}
-		if !elemOK {
+		keyedLookup := false
+		if !elemOK && len(ap.Call.Args) > 1 {
+			// for _, id := range ids { out = append(out, registry[id]) } with ids = every key of the
+			// registry (collected, possibly sorted): every entry is visited exactly through its key
+			for _, e := range varargElems(ap.Call.Args[1]) {
+				lk, ok := stripLoads(e).(*ssa.Lookup)
+				if !ok {
+					if ex, isEx := e.(*ssa.Extract); isEx {
+						lk, ok = ex.Tuple.(*ssa.Lookup)
+					}
+				}
+				if !ok || lk == nil {
+					continue
+				}
+				ch, _ := addrChain(lk.X)
+				if len(ch) == 0 || ch[len(ch)-1] == nil {
+					continue
+				}
+				isElem := false
+				for _, le := range ri.Elem {
+					if lk.Index == le {
+						isElem = true
+					}
+					if ld, ok := lk.Index.(*ssa.UnOp); ok && ld.X == le {
+						isElem = true
+					}
+				}
+				if isElem && c.containsAllKeys(ri.X, ch[len(ch)-1], 0) {
+					keyedLookup = true
+				}
+			}
+		}
+		if !elemOK && !keyedLookup {
 			why = "what is appended in the loop is not the loop's element"
 			continue
 		}
@@ -362,6 +394,9 @@ func (c *collector) accumulator(fn *ssa.Function, v ssa.Value, al *ssa.Alloc, fv
 		if !cut[body] && reachableBlocks(body, cut)[l.Header] {
 			why = fmt.Sprintf("some iterations of the loop at %s skip the append (a filter or an early continue): entries of the registry are silently left out", c.p.pos(ap.Pos()))
 			continue
+		}
+		if keyedLookup {
+			return true, "range over every key of the registry (collected first), each entry looked up by its key"
 		}
 		// the ranged collection must itself be complete
 		if ok, w := c.containsAll(ri.X); ok {
@@ -609,4 +644,115 @@ func rulePartFromRegistry(only ...string) func(r *Run) {
 		}
 		r.Min("registry_backed_part_fields", n, want)
 	}
+}
+
+// containsAllKeys: slice value v holds every key of the map stored in field mapField — it is built
+// by appending the key on every iteration of a range loop over that map (in this function or in a
+// helper whose result it is); sorting in place does not lose keys.
+func (c *collector) containsAllKeys(v ssa.Value, mapField *types.Var, depth int) bool {
+	if depth > 3 || v == nil {
+		return false
+	}
+	v = stripConv(v)
+	switch x := v.(type) {
+	case *ssa.Call:
+		if b, ok := x.Call.Value.(*ssa.Builtin); ok && b.Name() == "append" {
+			return c.keyAccumulator(x.Parent(), v, mapField)
+		}
+		cal := staticCallee(x)
+		if cal == nil || !c.p.inModule(cal) || len(cal.Blocks) == 0 {
+			return false
+		}
+		rets := returnsOf(cal)
+		if len(rets) == 0 {
+			return false
+		}
+		for _, ret := range rets {
+			if len(ret.Results) == 0 || !c.containsAllKeys(ret.Results[0], mapField, depth+1) {
+				return false
+			}
+		}
+		return true
+	case *ssa.Phi:
+		return c.keyAccumulator(x.Parent(), v, mapField)
+	case *ssa.Slice:
+		return c.containsAllKeys(x.X, mapField, depth)
+	case *ssa.UnOp:
+		if al, ok := x.X.(*ssa.Alloc); ok && x.Op == token.MUL && al.Referrers() != nil {
+			for _, u := range *al.Referrers() {
+				if st, ok := u.(*ssa.Store); ok && st.Addr == ssa.Value(al) && c.containsAllKeys(st.Val, mapField, depth+1) {
+					return true
+				}
+			}
+		}
+	}
+	return false
+}
+
+func (c *collector) keyAccumulator(fn *ssa.Function, v ssa.Value, mapField *types.Var) bool {
+	var appends []*ssa.Call
+	seen := map[ssa.Value]bool{}
+	var walk func(x ssa.Value)
+	walk = func(x ssa.Value) {
+		x = stripConv(x)
+		if x == nil || seen[x] {
+			return
+		}
+		seen[x] = true
+		switch y := x.(type) {
+		case *ssa.Phi:
+			for _, e := range y.Edges {
+				walk(e)
+			}
+		case *ssa.Call:
+			if b, ok := y.Call.Value.(*ssa.Builtin); ok && b.Name() == "append" {
+				appends = append(appends, y)
+				walk(y.Call.Args[0])
+			}
+		}
+	}
+	walk(v)
+	loops := naturalLoops(fn)
+	for _, ap := range appends {
+		var l *natLoop
+		for _, cand := range loops {
+			if cand.Body[ap.Block()] && (l == nil || len(cand.Body) < len(l.Body)) {
+				l = cand
+			}
+		}
+		if l == nil || len(ap.Call.Args) < 2 {
+			continue
+		}
+		ri := rangeOf(l)
+		if ri == nil {
+			continue
+		}
+		ch, _ := addrChain(ri.X)
+		if len(ch) == 0 || ch[len(ch)-1] != mapField {
+			continue
+		}
+		// the appended element is the key of the map range (Extract #1 of the iterator's Next)
+		isKey := false
+		for _, e := range varargElems(ap.Call.Args[1]) {
+			if ex, ok := e.(*ssa.Extract); ok && ex.Index == 1 {
+				if _, isNext := ex.Tuple.(*ssa.Next); isNext {
+					isKey = true
+				}
+			}
+		}
+		if !isKey {
+			continue
+		}
+		iff := l.Header.Instrs[len(l.Header.Instrs)-1].(*ssa.If)
+		body := iff.Block().Succs[0]
+		if !l.Body[body] {
+			body = iff.Block().Succs[1]
+		}
+		cut := map[*ssa.BasicBlock]bool{ap.Block(): true}
+		if !cut[body] && reachableBlocks(body, cut)[l.Header] {
+			continue
+		}
+		return true
+	}
+	return false
 }
